@@ -41,6 +41,7 @@ Record cin := {
 Record obs := {
   ob_res : list ores;
   ob_log : list (nat * nat * nat);      (* requests seen by the services: block, service, attempt *)
+  ob_nreq : list nat;                   (* per operation: how many of these requests it caused (segments ob_log) *)
   ob_sync : bool                        (* concurrent readers were all waiting before the fetch was answered *)
 }.
 
@@ -144,6 +145,14 @@ Fixpoint do_ops (st : cst) (ops : list op) : list ores * cst :=
 End Run.
 
 Definition run_model (i : cin) : list ores * cst := do_ops i {| cs_cache := []; cs_log := [] |} (i_ops i).
+
+(* the number of requests each operation of the model's run causes *)
+Fixpoint do_ops_n (i : cin) (st : cst) (ops : list op) : list nat :=
+  match ops with
+  | [] => []
+  | o :: r => let '(_, st') := do_op i st o in (List.length (cs_log st') - List.length (cs_log st)) :: do_ops_n i st' r
+  end.
+Definition run_nreq (i : cin) : list nat := do_ops_n i {| cs_cache := []; cs_log := [] |} (i_ops i).
 
 (* ---- equality ---- *)
 Fixpoint list_eqb {A} (eqb : A -> A -> bool) (a b : list A) : bool :=
@@ -321,14 +330,76 @@ Fixpoint judge_ops (i : cin) (ops : list op) (rs : list ores) : list (bool * boo
   | _, _ => []
   end.
 
+(* ---- the error class of a failed read, judged against the answers the services gave to the requests of that
+   very operation.  ob_nreq cuts the request log into one segment per operation; the scripted answer of the log
+   entry (block, service, attempt) is entry [attempt] of the service's row of the block's script (the stub's
+   attempt counter, as in oracle_at).  A service that answered 404 is not asked again in the same call; a service
+   is asked again in the next round exactly when its answer was retryable (connection error, 408, 429, >= 500).
+   So: BlockNotFound means every service of the probe order answered 404 in this operation; if every service's
+   last answer in the operation is a 404 the error is BlockNotFound; otherwise the error is temporary exactly
+   when some service's last answer was retryable.  Judged only when the probe order has no duplicates (a function
+   of the input) and when the observation could attribute requests to operations (ob_sync). ---- *)
+Definition is404b (r : response) : bool := match r with Resp st _ _ _ => (st =? 404)%N | ConnErr => false end.
+Definition retryableb (r : response) : bool := match r with Resp st _ _ _ => retry_status st | ConnErr => true end.
+
+(* (service, answer) for each request of a log segment *)
+Definition ans_at (i : cin) (en : nat * nat * nat) : response :=
+  nth (snd en) (nth (snd (fst en)) (b_script (blk_of i (fst (fst en)))) []) ConnErr.
+Definition answers (i : cin) (seg : list (nat * nat * nat)) : list (nat * response) :=
+  map (fun en => (snd (fst en), ans_at i en)) seg.
+
+(* the last answer service s gave in the segment *)
+Fixpoint last_of (al : list (nat * response)) (s : nat) : option response :=
+  match al with
+  | [] => None
+  | (s', r) :: rest => match last_of rest s with Some x => Some x | None => if s' =? s then Some r else None end
+  end.
+Definition has404 (al : list (nat * response)) (s : nat) : bool := existsb (fun p => (fst p =? s) && is404b (snd p)) al.
+Definition last404 (al : list (nat * response)) (s : nat) : bool :=
+  match last_of al s with Some r => is404b r | None => false end.
+Definition last_retry (al : list (nat * response)) (s : nat) : bool :=
+  match last_of al s with Some r => retryableb r | None => false end.
+Fixpoint nodupb (l : list nat) : bool :=
+  match l with [] => true | x :: r => negb (existsb (Nat.eqb x) r) && nodupb r end.
+Definition all_last_404 (order : list nat) (al : list (nat * response)) : bool :=
+  match order with [] => false | _ => forallb (last404 al) order end.
+
+Definition class_okb (order : list nat) (al : list (nat * response)) (e : err) : bool :=
+  match e with
+  | ENotFound => forallb (has404 al) order
+  | ETemp => existsb (last_retry al) order
+  | EPerm => negb (existsb (last_retry al) order)
+  | _ => true
+  end && (negb (all_last_404 order al) || err_eqb e ENotFound).
+Definition class_ok (order : list nat) (al : list (nat * response)) (e : err) : bool :=
+  negb (nodupb order) || class_okb order al e.
+
+Definition err_ok (i : cin) (o : op) (r : ores) (seg : list (nat * nat * nat)) : bool :=
+  match o, r with
+  | OGet b _, RGet gerr _ _ _ _ _ => class_ok (b_order (blk_of i b)) (answers i seg) gerr
+  | OReadAt b _ _, RRead _ e => class_ok (b_order (blk_of i b)) (answers i seg) e
+  | OGroup _ b _ _, RGroup l => forallb (fun r => class_ok (b_order (blk_of i b)) (answers i seg) (snd r)) l
+  | _, _ => true
+  end.
+
+Fixpoint ops_err_ok (i : cin) (ops : list op) (rs : list ores) (ns : list nat) (log : list (nat * nat * nat)) : bool :=
+  match ops, rs, ns with
+  | [], [], [] => true
+  | o :: ops', r :: rs', n :: ns' => err_ok i o r (firstn n log) && ops_err_ok i ops' rs' ns' (skipn n log)
+  | _, _, _ => false
+  end.
+
 Definition spec_b (c : case) : bool :=
   ops_ok (c_in c) (i_ops (c_in c)) (ob_res (c_obs c)) && notfound_ok (c_in c) (ob_res (c_obs c)) &&
-  ops_loc_ok (c_in c) (i_ops (c_in c)) (ob_res (c_obs c)).
+  ops_loc_ok (c_in c) (i_ops (c_in c)) (ob_res (c_obs c)) &&
+  (negb (ob_sync (c_obs c)) ||
+   ops_err_ok (c_in c) (i_ops (c_in c)) (ob_res (c_obs c)) (ob_nreq (c_obs c)) (ob_log (c_obs c))).
 
 Definition model_b (c : case) : bool :=
   let '(rs, st) := run_model (c_in c) in
   list_eqb ores_eqb (ob_res (c_obs c)) rs &&
-  (negb (ob_sync (c_obs c)) || list_eqb log_eqb (ob_log (c_obs c)) (cs_log st)).
+  (negb (ob_sync (c_obs c)) ||
+   (list_eqb log_eqb (ob_log (c_obs c)) (cs_log st) && list_eqb Nat.eqb (ob_nreq (c_obs c)) (run_nreq (c_in c)))).
 
 Definition check_case (c : case) : N :=
   ((if model_b c then 0 else 1) + (if spec_b c then 0 else 2))%N.
